@@ -16,6 +16,8 @@ class GroupSum(torch.nn.Module):
         :param device:
         """
         super().__init__()
+        if not k > 0:
+            raise ValueError(f"The number of groups k must be positive, got {k}.")
         self.k = k
         self.tau = tau
         self.beta = beta
